@@ -109,6 +109,7 @@ _RAWBR = re.compile(r'<!--(?s:.*?)(?:\[|<[A-Za-z])|<\?(?s:.*?)(?:\[|<[A-Za-z])|<
 _BSESC = re.compile(r'\\.', re.S)
 _ATTRNAME = re.compile(r'\s(?:[^\s=<>"%s%s]*?_?%s:[0-9]+)+_[^\s=<>"%s%s]*="' % (STX, ETX, RAW, STX, ETX))
 _VALUE = re.compile(r'\s(href|src|title|alt)="([^"]*)"')
+_VALUE_ANY = re.compile(r'\s([^\s=<>"]+)="([^"]*)"')
 _CODE = re.compile(r'(<code[^>]*>)(.*?)</code>', re.S)
 _ANYFULL = re.compile('%s[^%s%s]*%s' % (STX, STX, ETX, ETX))
 _TRUNC2 = re.compile('%s[^%s%s"<>]*(?=")' % (STX, STX, ETX))
@@ -117,17 +118,28 @@ _TAILPH = re.compile('([%s]?)((?:[wzxhdk]{0,7}:)?)([0-9]*)%s' % (STX, ETX))
 
 
 _LEGACYKEY = re.compile(r'\{@[^}]*\\[^}]*=')        # a backslash between `{@` and a later `=` of the same brace group: an escape in the key
-_OPENTAG = re.compile(r'<[A-Za-z][^<>]*>')
 
 
-def _drop_esc_in_attr_names(work):
-    """remove escape placeholders `STX n ETX` that stand inside a start tag but outside its quoted attribute values"""
-    def fix(m):
-        parts = re.split(r'("[^"]*")', m.group(0))
-        for i in range(0, len(parts), 2):
-            parts[i] = _ESC.sub('', parts[i])
-        return ''.join(parts)
-    return _OPENTAG.sub(fix, work)
+def _convert_keys_unescaped(text, exts, fmt):
+    """the conversion with `LegacyAttrs.handleAttributes` unescaping the KEY before `el.set` (what a repair of F-C10-9 would do)"""
+    from markdown.extensions import legacy_attrs as LA
+    from markdown.treeprocessors import UnescapeTreeprocessor
+    un = UnescapeTreeprocessor().unescape
+    orig = LA.LegacyAttrs.handleAttributes
+
+    def patched(self, el, txt):
+        def cb(m):
+            try: k = un(m.group(1))
+            except (ValueError, OverflowError): k = m.group(1)
+            el.set(k, m.group(2).replace('\n', ' '))
+        return LA.ATTR_RE.sub(cb, txt)
+    LA.LegacyAttrs.handleAttributes = patched
+    try:
+        return markdown.markdown(text, extensions=list(exts), output_format=fmt)
+    except Exception:
+        return None
+    finally:
+        LA.LegacyAttrs.handleAttributes = orig
 
 
 def _drop_headless(work):
@@ -231,6 +243,15 @@ def classify(text, exts, out, fmt='xhtml'):
         if fid not in found: found.append(fid)
         shapes.append(shape)
 
+    # F-C10-9: legacy_attrs makes the text of a key an attribute NAME; escape placeholders in names are never restored.  Decided by ROOT CAUSE,
+    # not by the shape of the output (a key may hold quotes, blanks, `=`, further `{@`): the conversion is repeated with the key unescaped
+    # before `el.set`; the escape placeholders that disappear are this finding's, whatever is still there goes on to the other regions.
+    legacy = 'legacy_attrs' in exts and '{@' in text
+    if legacy and _LEGACYKEY.search(text):
+        out2 = _convert_keys_unescaped(text, exts, fmt)
+        if out2 is not None and len(_ESC.findall(out2)) < len(_ESC.findall(out)):
+            note('F-C10-9', 'escape-in-attr-name')
+            work = _strip_toc(out2) if 'toc' in exts else out2
     # The href of a wikilink (`<a class="wikilink" href="/label/">`, built from the label by the extension itself) is not a slot of any known
     # region: the label class (word characters, digits, `_`, space, `-`) admits no placeholder character, and `[[`, which the F-C10-1 trigger
     # reads as a nested bracket, is the wikilink syntax itself.  Placeholder material there is never explained.
@@ -253,11 +274,6 @@ def classify(text, exts, out, fmt='xhtml'):
         w2 = _drop_headless(work)
         if w2 != work:
             note('F-C10-7', 'headless-raw-placeholder'); work = w2
-    # F-C10-9: legacy_attrs makes the text of a key an attribute NAME; escape placeholders in names are never restored
-    if 'legacy_attrs' in exts and _LEGACYKEY.search(text):
-        w2 = _drop_esc_in_attr_names(work)
-        if w2 != work:
-            note('F-C10-9', 'escape-in-attr-name'); work = w2
     bare = _BSESC.sub('', text)        # backslash-escaped brackets are not brackets
     nest = bool(_NEST.search(bare)); qdest = bool(_QDEST.search(text))
     # F-C10-1 / F-C10-2: values of href/src/title/alt
@@ -281,7 +297,8 @@ def classify(text, exts, out, fmt='xhtml'):
                     v = v.replace(ETX, ''); note('F-C10-2', 'stray-etx-in-' + name)
         return ' %s="%s"' % (name, v)
 
-    work = _VALUE.sub(fix_value, work)
+    # legacy_attrs reads `alt`: a definition inside an image alt moves text of the alt (with a placeholder F-C10-1 left there) into an attribute of any name
+    work = (_VALUE_ANY if legacy else _VALUE).sub(fix_value, work)
     if qdest:
         # the same cut when the value also holds restored raw HTML with a `"` of its own (the value regex stops early):
         # a placeholder cut short and directly followed by the closing quote of the attribute
@@ -360,7 +377,8 @@ def gen_case(rng):
         exts = G.ext_subset(rng)
     else:
         exts = sorted(e for e in G.EXTENSIONS if rng.random() < rng.choice([0.2, 0.5, 0.8]))
-    if rng.random() < 0.06:
+    if rng.random() < 0.06 and not _NEST.search(_BSESC.sub('', text)) and not _QDEST.search(text):
+        # (not inside the regions of F-C10-1/2: legacy_attrs reads `alt` and would move a placeholder left there into an attribute name)
         # `{@key=value}` definitions of legacy_attrs (keys over name characters and escapes; values over words, escapes, markup)
         for _ in range(rng.choice([1, 1, 2])):
             i = rng.randint(0, len(text))
